@@ -222,7 +222,7 @@ def check(pid, tier, seed):
             if len(samples) < 2 and len(path) > 3:
                 samples.append({"source": "tlc-path " + cfg, "sig": sig, "history": [step_line(g, ei)[2:] for ei in path][:20]})
         log("[%s] graph %s: %d states / %d edges, %d executions" % (pid, cfg, len(g.states), len(g.edges), len(meta)))
-    ycount = {"quick": 300, "thorough": 6000}[tier]
+    ycount = {"quick": 300, "thorough": 40000}[tier]
     ys, ycfg = y_scripts(seed, ycount, reentrant=(pid == "C10"))
     yres = common.run_harness(exe, ys)
     execs = {}
